@@ -243,9 +243,9 @@ class ReplaceStringTransformation(StringValueTransformation):
                 replaced = self.re.sub(self.replacement, sigma_string_plain)
                 postprocessed_backslashes = re.sub(r"\\(?![*?])", r"\\\\", replaced)
                 if val.contains_placeholder():  # Preserve placeholders
-                    return SigmaString(postprocessed_backslashes).insert_placeholders()
-                else:
-                    return SigmaString(postprocessed_backslashes)
+                    return val.__class__(postprocessed_backslashes).insert_placeholders()
+                else:  # keep the string type (e.g. case-sensitive strings)
+                    return val.__class__(postprocessed_backslashes)
 
 
 @dataclass
